@@ -1,12 +1,15 @@
 #!/usr/bin/env python3
 """Runs the thorough tier unit by unit (timeout per unit) and prints wall time / paths / verdict lines,
-   to calibrate thorough bounds.  usage: thorough_cal.py [ID ...]"""
+   to calibrate thorough bounds.  usage: thorough_cal.py [ID[:unit,unit] ...]"""
 import json, subprocess, sys, time, glob, os, re
 ids = sys.argv[1:] or [os.path.basename(p)[:-5] for p in sorted(glob.glob('/verif/checks/C*.json'))]
 os.makedirs('/tmp/thcal', exist_ok=True)
-for pid in ids:
+for arg in ids:
+    pid, _, only = arg.partition(':')
     spec = json.load(open('/verif/checks/%s.json' % pid))
     for u in spec['units']:
+        if only and u['name'] not in only.split(','):
+            continue
         t0 = time.time()
         log = '/tmp/thcal/%s_%s.log' % (pid, u['name'])
         with open(log, 'w') as f:
